@@ -468,6 +468,34 @@ func mkPools(rounds int) *mc.Exec {
 							break
 						}
 					}
+					// growing beyond the capacity gives the caller a new array; the old one
+					// is still the caller's (like the operand of append): nobody else may be
+					// handed it while the caller has not put it back
+					if r == 0 {
+						view := grown[:cap(grown)]
+						copy(view, "MINE!!!!")
+						big := pools[i].Resize(grown, 64)
+						pb := base(big)
+						if pb != p {
+							owner[pb], held[pb] = i, i
+						}
+						other := pools[i].Get(8)
+						if po := base(other); po == p || po == pb {
+							errs = append(errs, fmt.Sprintf("pool %d handed out a backing array its caller still holds (the operand of a growing Resize, or its result)", i))
+						} else {
+							other = append(other, "theirs"...)
+							if string(view) != "MINE!!!!" {
+								errs = append(errs, fmt.Sprintf("a slice user %d still holds shows another holder's bytes %q after a growing Resize", i, view))
+							}
+							pools[i].Put(other)
+						}
+						if pb != p {
+							delete(held, pb)
+							pools[i].Put(big)
+						}
+						clear(view) // (what the caller wrote beyond the length it will put back)
+						b = grown[:0]
+					}
 					b = append(b, byte(0xA0+i), byte(r))
 					mc.Yield()
 					if b[0] != byte(0xA0+i) || b[1] != byte(r) {
